@@ -29,7 +29,7 @@ type vPeer struct {
 	baseTerm uint64
 	log      []*pb.Entry // log[i] has index base+1+i
 	commit   uint64
-	match    uint64 // as leader: highest index the real node acknowledged in this term
+	match    uint64            // as leader: highest index the real node acknowledged in this term
 	acked    map[uint64]uint64 // as leader: per abstract peer, the prefix it acknowledged in this term
 }
 
